@@ -719,12 +719,18 @@ func c11R8(c *Ctx) {
 			if !ok {
 				return
 			}
-			fa, ok := st.Addr.(*ssa.FieldAddr)
-			if !ok || fieldOf(fa).Name() != "page" {
-				return
+			var ia *ssa.IndexAddr
+			if fa, ok := st.Addr.(*ssa.FieldAddr); ok && fieldOf(fa).Name() == "page" {
+				ia, _ = fa.X.(*ssa.IndexAddr)
+			} else if whole, ok := st.Addr.(*ssa.IndexAddr); ok {
+				// s[k] = source{…}: the whole source is stored into its slot
+				if _, isMk := unwrapLoad(whole.X).(*ssa.MakeSlice); isMk {
+					if _, isStruct := st.Val.Type().Underlying().(*types.Struct); isStruct {
+						ia = whole
+					}
+				}
 			}
-			ia, ok := fa.X.(*ssa.IndexAddr)
-			if !ok {
+			if ia == nil {
 				return
 			}
 			nStores++
